@@ -15,7 +15,9 @@ arithmetic, exceptions included (the driver runs them at `Float`).
 Continued in `Props/C01World.lean` (the same API on a heap of `Obs` objects: tracks that share or copy their
 observations — `extract`, slices, `+`, `copy`, `extractSpanTime`, `loop(add=True)`, `addObs(o.copy())`) and in
 `Props/C01Call.lean` (the list forms of `Track.operate`; `call_keeps_listed`: a call that is not a deleting call unlists
-nothing, returning or raising). -/
+nothing, returning or raising) and in `Props/C01Front.lean` (the argument handling of `createAnalyticalFeature` and
+`track[name] = obs`: whatever object is given — `None`, a bool, a str … — is the value read back; the driver runs the
+model at `V := String`, one token per Python object, next to the `Float` instance). -/
 set_option linter.unusedSectionVars false
 namespace TV.C01
 open TV.Features
